@@ -874,9 +874,10 @@ struct Dumper
                     bad.push_back(nm + ": type arity " + std::to_string(inst.uid.get_type().size()) + " != unbound " +
                                   std::to_string(inst.unbound));
             } else if (k == PROCESS_SET) {
-                type_t it = inst.uid.get_type().size() > 0 ? inst.uid.get_type().get(0) : type_t();
-                if (it == type_t() || it.size() != inst.unbound)
-                    bad.push_back(nm + ": process-set arity != unbound " + std::to_string(inst.unbound));
+                // create_process_set copies the unbound parameters of the instance type
+                if (inst.uid.get_type().size() != inst.unbound)
+                    bad.push_back(nm + ": process-set arity " + std::to_string(inst.uid.get_type().size()) + " != unbound " +
+                                  std::to_string(inst.unbound));
             } else if (k == PROCESS) {
                 if (inst.unbound != 0)
                     bad.push_back(nm + ": PROCESS type with unbound " + std::to_string(inst.unbound));
